@@ -209,6 +209,10 @@ def run_one(args):
             script = scripts.pop()
             npass += 1
             if npass > 48:
+                if any(o.get("refuted") for o in res["obls"]):
+                    # violations found on the passes made so far stand; the unexplored rest is noted, not an error
+                    agg["notes"].append("whole-job path exploration stopped after 48 passes (violations already found)")
+                    break
                 raise RuntimeError("more than 48 whole-job paths")
             S.reset()
             helpers.deactivate()
